@@ -228,7 +228,11 @@ def _ascii_range_guard(fn, defs, idom, src, blk):
         # range operand
         ro = common.origin(fn, defs, t["args"][0])
         lo = hi = None
-        if ro["k"] == "const" and "bytes" in ro["op"] and "Range<" in ro["op"].get("ty", ""):
+        if ro["k"] == "const" and "struct" in ro["op"] and "Range" in ro["op"].get("ty", ""):
+            fv = {x["n"]: int(x["v"]) for x in ro["op"]["struct"]}
+            if "start" in fv and "end" in fv:
+                lo, hi = fv["start"], fv["end"] + (1 if "RangeInclusive" in ro["op"]["ty"] else 0)
+        elif ro["k"] == "const" and "bytes" in ro["op"] and "Range<" in ro["op"].get("ty", ""):
             bs = ro["op"]["bytes"]
             w = len(bs) // 2
             if w in (1, 2, 4, 8):
